@@ -4,6 +4,7 @@ import Wx.Driver.Fs
 import Wx.Driver.Pure
 import Wx.Driver.Tables
 import Wx.Driver.Err
+import Wx.Driver.CliAction
 import Wx.Driver.Flags
 import Wx.Driver.Throttle
 /-! one line in, one line out; `wxdriver <stream> [none|all]` -/
@@ -23,6 +24,7 @@ def main (args : List String) : IO UInt32 := do
   | "err" => loop Wx.Driver.Err.handleLine stdin; return 0
   | "throttle" => loop Wx.Driver.Throttle.handleLine stdin; return 0
   | "flags" => loop Wx.Driver.Flags.handleLine stdin; return 0
+  | "cli" => loop Wx.Driver.CliAction.handleLine stdin; return 0
   | "pure" => loop Wx.Driver.Pure.handleLine stdin; return 0
   | "job" => loop (Wx.Driver.Job.handleLine (Wx.Driver.Job.cfgOf cfg)) stdin; return 0
   | "fs" => loop (Wx.Driver.Fs.handleLine (if cfg == "all" then (⟨true, true⟩ : Fw.Fixes) else {})) stdin; return 0
